@@ -32,6 +32,8 @@ pub enum Op {
     DeliverCancelled(u16),
     /// every peer with something outstanding (or in flight after a choke) delivers one block, all within one barrier
     DeliverAllPeersAtOnce,
+    /// 11 virtual seconds pass (the connection tasks' 10 s stats tick fires)
+    Wait,
     /// one peer delivers its next block and, in the same barrier, another peer with something outstanding goes away
     DeliverWhileOtherLeaves(u16, u16),
     Disconnect(u16),
@@ -60,6 +62,7 @@ fn strategy() -> BoxedStrategy<Case> {
         3 => any::<u16>().prop_map(Op::DeliverAll),
         2 => any::<u16>().prop_map(Op::DeliverCancelled),
         2 => Just(Op::DeliverAllPeersAtOnce),
+        2 => Just(Op::Wait),
         2 => (any::<u16>(), any::<u16>()).prop_map(|(a, b)| Op::DeliverWhileOtherLeaves(a, b)),
         1 => any::<u16>().prop_map(Op::Disconnect),
     ];
@@ -430,6 +433,10 @@ fn check_all(c: &Case) -> Outcome {
                         for p in with_req {
                             net.answer(w, p, 0);
                         }
+                    }
+                    Op::Wait => {
+                        w.advance_by(std::time::Duration::from_secs(11)).await;
+                        classes.push("stats-tick-passed");
                     }
                     Op::DeliverWhileOtherLeaves(a, b) => {
                         let with_req: Vec<usize> = live.iter().copied().filter(|p| !net.peers[*p].view.outstanding.is_empty()).collect();
